@@ -16,12 +16,16 @@
      (join N err ferr conv (ret (res) err log))
      (traverse (ids) ((id tag) ..) (ret nil|(res) err (visited ids)))
      (toerror NOUT (args) success errtag (ret (outs) err ((args))))
+     (toerrorp NOUT (name ..) (args) success errtag (ret ..))    name .. = the parameter names of f (symbols);
+                                   a call of a function-valued ARGUMENT shows in the log as (-9 id)
      (zero KIND NAMED LIT)
      (ir (a0 .. an) (STMT ..))     the body of a generated deriveCompose, translated by the harness:
                                    STMT = (call ((i j) ..) ev fn ((i j) ..)) | (iferr ev nzeros) | (ret ((i j) ..))
                                    variables numbered by where they are defined, not by name   *)
 From Verif Require Import Base Sexp Fmap.
 From Verif.Chain Require Import Chain ChainProofs Zero ComposeIR.
+From Verif.Chain Require ToErrorText.
+From Verif.Plumb Require Model.
 Open Scope string_scope.
 
 (* ---- the instrumented stages of the harness ---- *)
@@ -264,6 +268,41 @@ Definition eval_toerror (nout args success etag real : sexp) : verdict :=
   | _, _, _, _ => bad_line
   end.
 
+(* f's parameters carry names (symbols): the names the generated function chooses for itself are
+   computed and resolved in the text model *)
+Definition get_syms (e : sexp) : option (list string) :=
+  match e with L l => map_opt (fun x => match x with Sym s => Some s | _ => None end) l | _ => None end.
+
+Definition val_id (v : @ToErrorText.val Z Z) : Z :=
+  match v with ToErrorText.VData z => z | _ => (-1)%Z end.
+
+Definition eval_toerrorp (nout names args success etag real : sexp) : verdict :=
+  match get_nat nout, get_syms names, get_zs args, get_num success, get_num etag with
+  | Some n, Some ns, Some a, Some sc, Some et =>
+      if negb (Verif.Plumb.Model.nodupb ns && Nat.eqb (length ns) (length a)) then bad_line else
+      let ok := negb (sc =? 0)%Z in
+      let ft := fun (_ : nat) (x : list (@ToErrorText.val Z Z)) =>
+                  (map (@ToErrorText.VData Z Z) (hvals 0 n (map val_id x)), ok) in
+      (* model: the printed text with the names the generator chooses, resolved scope by scope *)
+      let model :=
+        match ToErrorText.run ft (ToErrorText.gen ns n) (err_of et) 0 (map (@ToErrorText.VData Z Z) a) with
+        | Some (outs, e, lg) =>
+            ret3 (of_zs (map val_id outs)) e (L (map (fun l => of_zs (map val_id l)) lg))
+        | None => Sym "stuck"
+        end in
+      let spec := ret3 (of_zs (hvals 0 n a)) (if ok then None else err_of et) (L [of_zs a]) in
+      let own := fun p => existsb (String.eqb p) ns in
+      mk ("toerror/n" ++ digit n ++ (if ok then "/true" else "/false") ++
+          (if (et =? 0)%Z then "/nil-err" else "") ++
+          (if existsb (fun x => (x =? 0)%Z) a then "+zero-args" else "") ++
+          "+params-named" ++ (if own "err" then "-err" else "") ++ (if own "f" then "-f" else "") ++
+          (if own "success" then "-success" else "") ++
+          (if own "out0" || own "out1" || own "out2" then "-out" else "") ++
+          (if own "err_" || own "f_" || own "success_" || own "out0_" then "-underscored" else ""))
+         model spec real
+  | _, _, _, _, _ => bad_line
+  end.
+
 (* ---- zero literals (structural: the literal text found in derived.gen.go) ---- *)
 Definition shape_of (e : sexp) : option shape :=
   match e with
@@ -395,6 +434,8 @@ Definition eval16 (e : sexp) : verdict :=
           if String.eqb k "composez" then eval_composez n err ferr conv real else
           if String.eqb k "toerror" then eval_toerror n err ferr conv real else
           bad_line
+      | [n; names; args; sc; et; real] =>
+          if String.eqb k "toerrorp" then eval_toerrorp n names args sc et real else bad_line
       | [a; b; real] =>
           if String.eqb k "traverse" then eval_traverse a b real else
           if String.eqb k "zero" then eval_zero a b real else
